@@ -6,6 +6,8 @@ import os
 
 ROOT = os.path.dirname(os.path.dirname(os.path.abspath(__file__)))
 
+SIMNOTE = 'Trusted base of the simulator (DESIGN.md §3.5): reliable FIFO channels of pickled messages, the ~25-line registration shim mirroring spawn_workers/connect_to_managers, fail-stop crashes, and that workers share no state except through messages. Real OS sockets, process spawning and the OS thread scheduler are replaced, not tested.'
+
 CHECKS = {
     'C04': dict(
         category='exploration',
@@ -27,6 +29,41 @@ CHECKS = {
         design_ref='DESIGN.md §4 C06, §3.1',
         note='Trusted: numpy tensordot, per-gate matrices/gradients (C18), grid read API (C05). Tolerances 1e-9 (values), 2e-5*scale (finite differences, step 1e-6).',
         technique='differential testing against an independent reference simulator over Hypothesis-generated circuits; finite-difference oracle for gradients',
+    ),
+    'C07': dict(
+        category='exploration',
+        text='The real Worker, DetachedServer, Manager and Compiler code is run in a deterministic single-threaded simulation whose every scheduling decision (which channel delivers next, which worker steps, where a worker main step is pre-empted at source-line granularity to let the incoming-message handler run) comes from the generated case. Generated task trees (submit/await in any order, map, map+next) x topologies x schedules x up to 3 pre-emptions are judged against a reference evaluator: client value, every body exactly once, no error shipped to the client, no hang, nothing parked at quiescence. A second family enumerates every single pre-emption point (worker step x line x k pending messages) of a fixed sequential-awaits program under six base schedules.',
+        design_ref='DESIGN.md §4 C07, §3.5',
+        note=SIMNOTE + ' Line-level interleavings are explored with at most 3 pre-emptions, the pre-empting thread running whole handlers.',
+        technique='schedule-exploring property-based testing on a deterministic runtime simulator (Hypothesis-generated programs/schedules/pre-emptions + exhaustive single-pre-emption enumeration)',
+    ),
+    'C12': dict(
+        category='exploration',
+        text='Generated task trees containing cancellation nodes (map + b x next() + cancel, submit + cancel, submit + cancel + await) and client-side cancel/disconnect of one of two compilations at a drawn moment, run on the deterministic simulator over generated topologies and delivery orders. Oracle: reference values (cancelled work never appears in any value; awaiting a cancelled future fails the compilation with the documented RuntimeError), execution log (non-cancelled bodies exactly once, cancelled at most once, none started on a worker after it handled the CANCEL), table hygiene at quiescence on every worker and on the server, and the other compilation completing correctly.',
+        design_ref='DESIGN.md §4 C12, §3.5',
+        note=SIMNOTE,
+        technique='schedule-exploring property-based testing on a deterministic runtime simulator with a reference evaluator and quiescence invariants',
+    ),
+    'C13': dict(
+        category='exploration',
+        text='Histories of client API calls (submit/status/result/cancel/close interleaved with runtime progress) by 1-3 real Compiler objects against one simulated detached server, over task ids in every state (running, done, fetched, cancelled, unknown, another client\'s), with raising and logging task programs. Oracle: a per-task reference state machine, a server-liveness check after every call, delivery of the original error text to the owning client only, and correct values for every undisturbed task.',
+        design_ref='DESIGN.md §4 C13, §3.5',
+        note=SIMNOTE,
+        technique='stateful (history-based) property testing of the client/server protocol on a deterministic runtime simulator against a reference state machine',
+    ),
+    'C14': dict(
+        category='fault_enumeration',
+        text='For each generated base run (program, topology, schedule, attached/detached, failure mode of sends to a dead peer) the fault-free execution is measured and then re-executed once per (node, crash point): every worker and manager crashed after every action (all points for short runs, 40/200 evenly spaced + drawn ones otherwise), optionally followed by a second crash, with the client blocked in result(). Each faulted execution must end in an exception or the complete correct value, never hang or exceed the step bound, and leave no server, manager or worker running.',
+        design_ref='DESIGN.md §4 C14, §3.5',
+        note=SIMNOTE + ' Bounded time is measured in simulator actions (6T+400).',
+        technique='systematic fault injection (crash-point enumeration) over Hypothesis-generated schedules on a deterministic runtime simulator',
+    ),
+    'C15': dict(
+        category='exploration',
+        text='Generated programs with wide maps (fan-out below/equal/above the idle-worker count), bursts of submits and optional cancellation, over flat and hierarchical topologies and generated delivery orders with the scheduler\'s own randomness seeded from the case. After EVERY simulator action all per-employee and per-node counters are checked against their bounds; from the log of messages put on channels every created task must be forwarded exactly once per level and reach exactly one worker; at quiescence a server managing workers directly must believe all of them idle with zero tasks. WAITING/SUBMIT_BATCH crossings are measured (labels) to show the race is reached.',
+        design_ref='DESIGN.md §4 C15, §3.5',
+        note=SIMNOTE + ' One open known finding (task count drift after cancellation) is reported as KNOWN-FINDING.',
+        technique='invariant checking after every step of schedule-exploring property-based tests on a deterministic runtime simulator',
     ),
     'C16': dict(
         category='exploration',
